@@ -115,6 +115,66 @@ def try_finally(fn: ast.AST, key: str) -> tuple[bool, bool, bool]:
     return guarded, resets, restores
 
 
+class _Rename(ast.NodeTransformer):
+    def __init__(self, mapping):
+        self.mapping = mapping
+
+    def visit_Name(self, node):
+        if node.id in self.mapping:
+            return ast.copy_location(ast.Name(id=self.mapping[node.id], ctx=node.ctx), node)
+        return node
+
+
+def canonical_locals(fn: ast.FunctionDef, kind: str) -> ast.FunctionDef:
+    """Locals are identified by HOW THEY ARE DEFINED, not by their names, and renamed to the names the readers below
+    use: the loop variable over `to_scan`; `old` = the value looked up under it; `upper` / `lower` = what the first /
+    second perturbed evaluation is bound to; `norm` = the third steady state of the worker; the coefficient(s) = the
+    local(s) bound to a quotient of `upper - lower`; `old_variables` = `model.get_raw_variables()`.  Parameters of the
+    functions (keyword API) keep their names."""
+    mapping: dict[str, str] = {}
+    params = {a.arg for a in fn.args.args + fn.args.kwonlyargs}
+
+    def bind(actual: str, canon: str) -> None:
+        if actual in params and actual != canon:
+            raise Unsupported(f"{fn.name}: parameter {actual} plays the role of local `{canon}`")
+        if actual != canon and (canon in mapping.values() or actual in mapping):
+            raise Unsupported(f"{fn.name}: two locals play the role of `{canon}`")
+        mapping[actual] = canon
+
+    key = "parameter"
+    if kind in ("var", "par"):
+        loops = [n for n in ast.walk(fn) if isinstance(n, ast.For) and ast.unparse(n.iter) == "to_scan" and isinstance(n.target, ast.Name)]
+        if len(loops) != 1:
+            raise Unsupported(f"{fn.name}: no single loop over to_scan")
+        key = loops[0].target.id
+        bind(key, kind)
+    assigns_ = sorted((n for n in ast.walk(fn) if isinstance(n, ast.Assign) and len(n.targets) == 1 and isinstance(n.targets[0], ast.Name)),
+                      key=lambda n: (n.lineno, n.col_offset))
+    evals = []
+    for a in assigns_:
+        v, t = a.value, a.targets[0].id
+        if isinstance(v, ast.Subscript) and isinstance(v.slice, ast.Name) and v.slice.id == key:
+            bind(t, "old")
+        elif ast.unparse(v) == "model.get_raw_variables()":
+            bind(t, "old_variables")
+        elif isinstance(v, ast.Call) and ast.unparse(v.func) in ("model.get_fluxes", "_steady_state_worker"):
+            evals.append(t)
+    roles = ["upper", "lower"] + (["norm"] if kind == "resp" else [])
+    if len(evals) != len(roles):
+        raise Unsupported(f"{fn.name}: expected {len(roles)} evaluations bound to locals, found {len(evals)}")
+    for t, r in zip(evals, roles):
+        bind(t, r)
+    up, lo = evals[0], evals[1]
+    coefs = [a.targets[0].id for a in assigns_ if isinstance(a.value, ast.BinOp) and isinstance(a.value.op, ast.Div)
+             and {up, lo} <= {n.id for n in ast.walk(a.value) if isinstance(n, ast.Name)}]
+    want = ["conc_resp", "flux_resp"] if kind == "resp" else ["elasticity_coef"]
+    if len(coefs) != len(want):
+        raise Unsupported(f"{fn.name}: expected {len(want)} difference quotient(s), found {len(coefs)}")
+    for t, r in zip(coefs, want):
+        bind(t, r)
+    return ast.fix_missing_locations(_Rename(mapping).visit(fn))
+
+
 def generate(repo: Path, outdir: Path) -> bool:
     tree = ast.parse((repo / SRC).read_text())
     out = [HEADER.format(src=SRC, tr="c18.py"), "namespace Mxl.Generated.C18\n"]
@@ -123,7 +183,7 @@ def generate(repo: Path, outdir: Path) -> bool:
         out.append(f"/-- `{doc}` -/\ndef {name} ({params} : Rat) : Rat := {body}\n")
 
     # ---- variable_elasticities: the perturbed state is `variables | {var: <value>}`
-    ve = find_function(tree, "variable_elasticities")
+    ve = canonical_locals(find_function(tree, "variable_elasticities"), "var")
     vals = []
     for node in ast.walk(ve):
         if is_call_to(node, "model", "get_fluxes"):
@@ -151,7 +211,7 @@ def generate(repo: Path, outdir: Path) -> bool:
     out.append(f"/-- the factor of `if normalized: elasticity_coef *= …` -/\ndef varScale (old base : Rat) : Rat := {scaling(ve, 'elasticity_coef', {})}\n")
 
     # ---- parameter_elasticities
-    pe = find_function(tree, "parameter_elasticities")
+    pe = canonical_locals(find_function(tree, "parameter_elasticities"), "par")
     pv = [v for v in perturbations(pe, "par")]
     non_reset = [v for v in pv if ast.unparse(v) != "old"]
     if len(non_reset) != 2:
@@ -177,7 +237,7 @@ def generate(repo: Path, outdir: Path) -> bool:
                f"def parStateResolvedOnce : Bool := {'true' if top and explicit and calls else 'false'}\n")
 
     # ---- _response_coefficient_worker
-    rw = find_function(tree, "_response_coefficient_worker")
+    rw = canonical_locals(find_function(tree, "_response_coefficient_worker"), "resp")
     pv = perturbations(rw, "parameter")
     non_reset = [v for v in pv if ast.unparse(v) != "old"]
     if len(non_reset) != 2:
